@@ -337,7 +337,13 @@ fn grammar_docs(tier: &str) -> Vec<String> {
             for d in &datas_full {
                 edge_full.push(format!("<edge{at}>{d}</edge>"));
             }
+            // several children: the weight data after / before another element that has its own end tag
+            edge_full.push(format!("<edge{at}><data key=\"other\">x</data><data key=\"weight\">2.5</data></edge>"));
+            edge_full.push(format!("<edge{at}><data key=\"weight\">2.5</data><data key=\"other\">x</data></edge>"));
+            edge_full.push(format!("<edge{at}><desc>d</desc><data key=\"weight\">7</data></edge>"));
+            edge_full.push(format!("<edge{at}><data key=\"other\"/><data key=\"weight\">0.125</data></edge>"));
             if s.is_some() && t.is_some() && s != Some("zz") {
+                edge_small.push(format!("<edge{at}><data key=\"other\">x</data><data key=\"weight\">2.5</data></edge>"));
                 edge_small.push(format!("<edge{at}/>"));
                 edge_small.push(format!("<edge{at}><data key=\"weight\">1.5</data></edge>"));
                 edge_small.push(format!("<edge{at}><data key=\"d0\">abc</data></edge>"));
